@@ -73,7 +73,7 @@ def kwargs_for(d, nus, gammas, hs, mig, theta0, frozen, nomut=None, funcs=False)
     return kw
 
 
-def replay_steps(ic, phi, xx, d, T, tf, nus, gammas, hs, mig, theta0, frozen, nomut):
+def replay_steps(ic, phi, xx, d, T, tf, nus, gammas, hs, mig, theta0, frozen, nomut, delj=False):
     """independent re-implementation of the driver loop on top of the REAL kernels; returns (result, influx mass, outflow mass)"""
     phi = phi.copy()
     w = tw(xx)
@@ -102,7 +102,7 @@ def replay_steps(ic, phi, xx, d, T, tf, nus, gammas, hs, mig, theta0, frozen, no
                 continue
             ms = [mig.get((k, j), 0.0) for j in range(d) if j != k]
             fn = getattr(ic, 'implicit_%dD%s' % (d, AX[k]))
-            phi = fn(phi, *([xx] * d), nus[k], *ms, gammas[k], hs[k], this_dt, 0)
+            phi = fn(phi, *([xx] * d), nus[k], *ms, gammas[k], hs[k], this_dt, int(bool(delj)))
             # absorbing outflow on the two corner lines of this sweep
             c0 = (0,) * d
             c1 = (G - 1,) * d
@@ -131,8 +131,19 @@ def case_ledger(col, p):
     mig = {tuple(k): v for k, v in p['mig']}
     dts = [dt_rule(tf, nus[k], [mig.get((k, j), 0.0) for j in range(d) if j != k], gammas[k], hs[k]) for k in range(d)]
     T = min(dts) * (nsteps_target - 0.5)
+    delj, layout = bool(p.get('delj', False)), p.get('layout', 'C')
     old = (Integration.timescale_factor, Integration.use_delj_trick)
-    Integration.timescale_factor, Integration.use_delj_trick = tf, False
+    Integration.timescale_factor, Integration.use_delj_trick = tf, delj
+
+    def as_layout(a):
+        # same values, different memory layout (what PhiManip.reorder_pops or slicing hands to the integrators)
+        if layout == 'F':
+            return np.asfortranarray(a)
+        if layout == 'S':
+            buf = np.full(a.shape[:-1] + (2 * a.shape[-1],), 7.0)
+            buf[..., ::2] = a
+            return buf[..., ::2]
+        return a.copy()
     try:
         inputs = [('zero', np.zeros(shape))]
         rng = np.random.RandomState(p['seed'] + 7)
@@ -149,7 +160,7 @@ def case_ledger(col, p):
                 kw = kwargs_for(d, nus, gammas, hs, mig, theta0, frozen, nomut, funcs)
                 info = dict(p, input=name, time_dependent=funcs)
                 try:
-                    out = drv(phi0.copy(), xx, T, **kw)
+                    out = drv(as_layout(phi0), xx, T, **kw)
                 except Exception as e:
                     col.violation('C04:driver%d:raises' % d, info, '%s: %s' % (type(e).__name__, e))
                     continue
@@ -173,7 +184,7 @@ def case_ledger(col, p):
                     else:
                         col.observe('frozen_marginal', err / (1e-11 * max(msc, 1e-12)))
                 # (3)+(4) replay through the real kernels and ledger
-                rep, influx, outflow, ns_ = replay_steps(ic, phi0, xx, d, T, tf, nus, gammas, hs, mig, theta0, frozen, nomut)
+                rep, influx, outflow, ns_ = replay_steps(ic, phi0, xx, d, T, tf, nus, gammas, hs, mig, theta0, frozen, nomut, delj)
                 if ns_ != nsteps_target:
                     col.violation('harness:C04:step_count', info, {'got': ns_, 'want': nsteps_target})
                 err = float(np.abs(out - rep).max())
@@ -203,7 +214,7 @@ def case_ledger(col, p):
         col.tick(states=n, traces=n)
     finally:
         Integration.timescale_factor, Integration.use_delj_trick = old
-    col.distinct('nontrivial', ('ledger', d, G, gk, tuple(frozen), tuple(nomut or ()), tuple(nus), tuple(gammas), bool(mig), nsteps_target, tuple(p['units'])))
+    col.distinct('nontrivial', ('ledger', d, G, gk, tuple(frozen), tuple(nomut or ()), tuple(nus), tuple(gammas), bool(mig), nsteps_target, tuple(p['units']), delj, layout))
 
 
 def case_isolated(col, p):
@@ -342,6 +353,17 @@ def run(ctx):
                                         cases.append({'kind': 'ledger', 'd': d, 'G': G, 'grid': gk, 'seed': seed, 'nus': nus, 'gammas': gammas, 'hs': hs,
                                                       'theta0': 1.5, 'tf': 1e-3, 'steps': steps, 'frozen': frozen, 'nomut': nomut, 'mig': mig,
                                                       'units': (lo, min(N, lo + chunk))})
+        # the same identities with the delj switch on and for densities that are not C-contiguous in memory
+        for frozen in fpats:
+            unf = [k for k in range(d) if not frozen[k]]
+            mig = [((a, b), 1.0 + 0.5 * a + 0.25 * b) for a in unf for b in unf if a != b] if len(unf) >= 2 else []
+            for delj, layout in ((True, 'C'), (False, 'F'), (False, 'S'), (True, 'F')):
+                if ctx.quick and d >= 4 and (sum(frozen) + delj + (layout == 'S')) % 2:
+                    continue
+                chunk = N if d <= 3 else 27
+                cases.append({'kind': 'ledger', 'd': d, 'G': G, 'grid': 'D', 'seed': seed, 'nus': nuB, 'gammas': sel[1][0], 'hs': sel[1][1],
+                              'theta0': 1.5, 'tf': 1e-3, 'steps': 3, 'frozen': frozen, 'nomut': None, 'mig': mig, 'units': (0, chunk),
+                              'delj': delj, 'layout': layout})
         for steps in (1, 7):
             for funcs in (False, True):
                 for gk in gks:
@@ -365,5 +387,5 @@ def run(ctx):
     ctx.rule = ('frozen pattern x nomut pattern x sizes x selection x migration x steps x driver kind, each on every unit density (+zero, dense); every '
                 'subset S for the isolated-marginal clause; every (frozen pattern, migration placement) for rejection. distinct_nontrivial = distinct '
                 'configurations whose every unit density passed all applicable identities')
-    ctx.assume('one grid for all axes (driver API); delj switch off for the ledger (C02 covers both settings at kernel level)')
+    ctx.assume('one grid for all axes (driver API); the full lattice runs with the delj switch off, a reduced lattice (every frozen pattern) with it on and with Fortran-ordered / strided inputs')
     ctx.assume('isolated-marginal clause is asserted where all frequencies of S are interior (boundary values decouple because V vanishes there)')
